@@ -56,6 +56,29 @@ def mutated_names(project) -> set:
                 b = base_name(n.func.value)
                 if b:
                     out.add(b)
+    # an object modified through another name: `prms = hardcoded.TABLE; prms['k'] = v` modifies TABLE. Names are not
+    # scoped here (an over-approximation: it only makes fewer names count as constants)
+    aliases = {}
+    for mod in project.modules.values():
+        for n in ast.walk(mod.tree):
+            tgt = val = None
+            if isinstance(n, ast.Assign) and len(n.targets) == 1:
+                tgt, val = n.targets[0], n.value
+            elif isinstance(n, (ast.AnnAssign, ast.NamedExpr)) and n.value is not None:
+                tgt, val = n.target, n.value
+            if tgt is None or not isinstance(tgt, (ast.Name, ast.Attribute)):
+                continue
+            alts = [val.body, val.orelse] if isinstance(val, ast.IfExp) else [val]
+            for v in alts:
+                if isinstance(v, (ast.Name, ast.Attribute)):
+                    aliases.setdefault(base_name(tgt), set()).add(base_name(v))
+    work = list(out)
+    while work:
+        m = work.pop()
+        for a in aliases.get(m, ()):
+            if a and a not in out:
+                out.add(a)
+                work.append(a)
     _MUTATED[key] = out
     return out
 
